@@ -12,7 +12,9 @@
 (* Sound, Complete (confluence: every order ends in Resolution(sel)),       *)
 (* ProcMacroOnHost, FeaturesOnUnits, LinksClosed, NoHostLeak, Monotone,     *)
 (* Terminates; and the two facts about the coupling that make the model     *)
-(* useful (SplitBreaksCoupling, Resolver1Coherent).                         *)
+(* useful (SplitBreaksCoupling, SplitBreaksPair; with MC_Features_r1.cfg,   *)
+(* i.e. host and target unified as resolver 1 did, the same pair is         *)
+(* coherent: the defect class exists only because of the split).            *)
 (***************************************************************************)
 EXTENDS Features
 
@@ -70,6 +72,14 @@ MCSpec == MCInit /\ [][MCNext]_vars /\ WF_vars(MCNext)
 SplitBreaksCoupling ==
   (Resolver = "2" /\ Resolved(facts) /\ sel = {Root("app", {"y"}, FALSE)})
      => Incoherences(facts) = {[id |-> "lib.lx<->util.g", dom |-> "host", lacks |-> "user"]}
+(* the shape of the zbus + zvariant[gvariant] defect: the downstream crate asks for lib[lx] (target: coherent) and
+   for app[y]; the proc-macro's host copy of lib has lx off but its util has g on.  Unified (resolver 1) there is
+   one copy of lib, with lx, and the configuration is coherent. *)
+PairSel == {Root("app", {"y"}, FALSE), Root("lib", {"lx"}, FALSE)}
+SplitBreaksPair ==
+  (Resolved(facts) /\ sel = PairSel)
+     => IF Resolver = "2" THEN Incoherences(facts) = {[id |-> "lib.lx<->util.g", dom |-> "host", lacks |-> "user"]}
+        ELSE Coherent(facts)
 (* without the optional dependency being activated its weak feature goes nowhere *)
 WeakDoesNotActivate ==
   (Resolved(facts) /\ sel = {Root("app", {"w"}, FALSE)}) => <<"opt", "target">> \notin Units(facts)
